@@ -105,8 +105,9 @@ class KU(Kind):
     uninterpreted function names (e.g. {'+': 'cat'}); `consts` maps Python literals to
     distinguished constants of the sort; `lenf` names an Int-valued length function.'''
 
-    def __init__(self, name, ops=None, consts=None, lenf=None, slicef=None):
+    def __init__(self, name, ops=None, consts=None, lenf=None, slicef=None, attrs=None):
         self.name = name
+        self.attrs = attrs or {}      # read-only attributes of immutable objects: name -> Kind
         self.ops = ops or {}
         self.consts = consts or {}
         self.lenf = lenf
@@ -159,6 +160,20 @@ class KList(Kind):
         n = z3.Int(ip.fresh_name(hint + '_n'))
         ip.assume(n >= 0)
         return VList(arr, n, self.elem)
+
+
+class KVarTuple(KList):
+    '''A tuple of symbolic length (same representation as a list, flagged as a tuple).'''
+
+    def wrap(self, term, ip=None):
+        v = super().wrap(term, ip)
+        v.ghost['tuple'] = True
+        return v
+
+    def fresh(self, ip, hint='t'):
+        v = super().fresh(ip, hint)
+        v.ghost['tuple'] = True
+        return v
 
 
 class KSet(Kind):
@@ -261,9 +276,9 @@ class KOpt(Kind):
         return s.constructor(1)(self.inner.unwrap(v))
 
     def fresh(self, ip, hint='o'):
-        if ip.choose(2, ('none', 'some')) == 0:
-            return VConst(None)
-        return self.inner.fresh(ip, hint)
+        # resolved lazily (path split at first use)
+        t = z3.Const(ip.fresh_name(hint), self.sort())
+        return VOptTerm(t, self)
 
 
 class KObj(Kind):
@@ -290,6 +305,19 @@ class KKindSpecFun(Kind):
         return VFunc('spec', self.fname)
 
 
+class KRecord(Kind):
+    '''A dictionary with a fixed set of constant keys (JSON-like result objects).'''
+
+    def __init__(self, **fields):
+        self.fields = fields
+        self.name = 'Rec_' + '_'.join(fields)
+
+    def fresh(self, ip, hint='rec'):
+        d = VDict(None, None, None, None)
+        d.rec = {k: kind.fresh(ip, f'{hint}.{k}') for k, kind in self.fields.items()}
+        return d
+
+
 class KConst(Kind):
     '''A parameter that always has the given concrete Python value.'''
 
@@ -298,7 +326,11 @@ class KConst(Kind):
         self.name = f'Const_{py!r}'
 
     def fresh(self, ip, hint='c'):
-        return VConst(self.py)
+        def conv(x):
+            if isinstance(x, tuple):
+                return VTuple(tuple(conv(y) for y in x))
+            return VConst(x)
+        return conv(self.py)
 
 
 class KOneOf(Kind):
@@ -375,11 +407,12 @@ class VU(Value):
 
 
 class VOptTerm(Value):
-    '''Only in spec mode: an unresolved optional term.'''
-    __slots__ = ('t', 'kind')
+    '''An optional that has not been looked at yet (resolved by a path split at first use).'''
+    __slots__ = ('t', 'kind', 'res')
 
     def __init__(self, t, kind):
         self.t, self.kind = t, kind
+        self.res = None
 
 
 class VTuple(Value):
@@ -438,6 +471,7 @@ class VDict(Value, _Linked):
     def __init__(self, m, dom, kk, vk, default=None):
         self.map, self.dom, self.kk, self.vk = m, dom, kk, vk
         self.default = default    # for defaultdict: a callable producing a Value
+        self.rec = None           # record mode: {constant key: Value} (JSON-like result dictionaries)
 
     def ensure_kinds(self, kk, vk):
         if self.kk is None:
